@@ -78,6 +78,9 @@ struct IMap {
     virtual bool contains( long k ) = 0;
     virtual bool extract_min( long&, long& ) { return false; }
     virtual bool extract_max( long&, long& ) { return false; }
+    // tie S on the machine side (lean/CdsVerif/Props/C18Reach.lean): the raw chain of the real object at the quiescent
+    // end of the case, as ONE line `SNAP list { <key> <marked> <hasData> }*` (format of clients/snap.cpp); default: none
+    virtual void dump( std::ostream& ) {}
 };
 
 struct GenCfg {
@@ -457,6 +460,20 @@ struct IntrListNamed : IMap {
     bool erase( long k, long& v ) override { return l->erase( k, [&v]( Item const& item ) { v = item.val; } ); }
     bool find( long k, long& v ) override { return l->find( k, [&v]( Item& item, long ) { v = item.val; } ); }
     bool contains( long k ) override { return l->contains( k ); }
+    // main thread, quiescent.  The loads are kept out of the trace (set_quiet): the replayed machine must not see them.
+    void dump( std::ostream& out ) override
+    {
+        set_quiet( true );
+        out << "SNAP list";
+        unsigned n = 0;
+        for ( auto* cur = l->m_pHead.load( atomics::memory_order_acquire ).ptr(); cur && n < 100000; ++n ) {
+            auto nx = cur->m_pNext.load( atomics::memory_order_acquire );
+            out << ' ' << static_cast<Item*>( cur )->key << ' ' << ( nx.bits() ? 1 : 0 ) << " 1";
+            cur = nx.ptr();
+        }
+        out << '\n';
+        set_quiet( false );
+    }
 };
 
 // Tie A for LazyList (Lean machine lean/CdsVerif/Algo/Lazy/Model.lean): intrusive LazyList whose sentinels' m_pNext
@@ -513,6 +530,20 @@ struct IntrLazyNamed : IMap {
     }
     bool find( long k, long& v ) override { return l->find( k, [&v]( Item& item, long ) { v = item.val; } ); }
     bool contains( long k ) override { return l->contains( k ); }
+    // main thread, quiescent; loads kept out of the trace.  The walk stops at m_Tail (null / cycle: as clients/snap.cpp)
+    void dump( std::ostream& out ) override
+    {
+        set_quiet( true );
+        out << "SNAP list";
+        unsigned n = 0;
+        for ( auto* cur = l->m_Head.m_pNext.load( atomics::memory_order_acquire ).ptr(); cur && cur != &l->m_Tail && n < 100000; ++n ) {
+            auto nx = cur->m_pNext.load( atomics::memory_order_acquire );
+            out << ' ' << static_cast<Item*>( cur )->key << ' ' << ( nx.bits() ? 1 : 0 ) << " 1";
+            cur = nx.ptr();
+        }
+        out << '\n';
+        set_quiet( false );
+    }
 };
 
 // Iterable: update replaces the data pointer
@@ -668,7 +699,7 @@ struct Fixture {
     void thread_begin( int ) { set_quiet( true ); cds::threading::Manager::attachThread(); set_quiet( false ); }
     void thread_end( int ) { set_quiet( true ); cds::threading::Manager::detachThread(); set_quiet( false ); }
     std::vector<long> exec( int, Op const& op ) { return map_exec( *m, op ); }
-    void finish( std::ostream& ) {}
+    void finish( std::ostream& out ) { m->dump( out ); }
 };
 
 int main( int argc, char** argv )
